@@ -34,19 +34,20 @@ type TierSpec struct {
 }
 
 type HarnessSpec struct {
-	ID       string              `json:"id"`
-	Property string              `json:"property"`
-	Pkg      string              `json:"pkg"` // directory relative to the repo root
-	Func     string              `json:"func"`
-	Merge    *bool               `json:"merge,omitempty"`
-	Policy   map[string]string   `json:"policy,omitempty"`
-	Tiers    map[string]TierSpec `json:"tiers"`
-	Known    []string            `json:"known,omitempty"`
-	Covers   []string            `json:"covers,omitempty"` // cover labels that must be witnessed
-	Stubs    []string            `json:"stubs,omitempty"`  // assumptions / stubs in force (text)
-	Hooks    []string            `json:"hooks,omitempty"`  // functions rewritten by the hook injector
-	Oracle   string              `json:"oracle,omitempty"`
-	Gen      []GenSpec           `json:"gen,omitempty"` // generated overlay files (native helper tools)
+	ID         string              `json:"id"`
+	Property   string              `json:"property"`
+	Pkg        string              `json:"pkg"` // directory relative to the repo root
+	Func       string              `json:"func"`
+	Merge      *bool               `json:"merge,omitempty"`
+	Policy     map[string]string   `json:"policy,omitempty"`
+	Tiers      map[string]TierSpec `json:"tiers"`
+	Known      []string            `json:"known,omitempty"`
+	Covers     []string            `json:"covers,omitempty"` // cover labels that must be witnessed
+	Stubs      []string            `json:"stubs,omitempty"`  // assumptions / stubs in force (text)
+	Hooks      []string            `json:"hooks,omitempty"`  // functions rewritten by the hook injector
+	Oracle     string              `json:"oracle,omitempty"`
+	Gen        []GenSpec           `json:"gen,omitempty"`         // generated overlay files (native helper tools)
+	OnlyLabels string              `json:"only_labels,omitempty"` // regexp: violation labels that belong to this property
 }
 
 type GenSpec struct {
@@ -126,6 +127,23 @@ func buildOverlay(pkgs []string, hooks []string) (map[string][]byte, error) {
 		}
 		ov[filepath.Join(repoRoot, p, "zz_vf_rt.go")] = []byte(strings.Replace(string(tmpl), "PKGNAME", pkgName, 1))
 	}
+	// package-level hook lists: /verif/harness/<pkg>/hooks.json
+	for _, p := range pkgs {
+		var ph []string
+		if readJSON(filepath.Join(verifRoot, "harness", p, "hooks.json"), &ph) == nil {
+			for _, h := range ph {
+				dup := false
+				for _, x := range hooks {
+					if x == h {
+						dup = true
+					}
+				}
+				if !dup {
+					hooks = append(hooks, h)
+				}
+			}
+		}
+	}
 	if len(hooks) > 0 {
 		hooked, err := injectHooks(hooks)
 		if err != nil {
@@ -146,6 +164,7 @@ func cmdCheck(args []string) {
 	solver := fs.String("solver", "z3-new", "primary solver")
 	verbose := fs.Int("v", 0, "verbosity")
 	noReplay := fs.Bool("noreplay", false, "skip native replays (debugging)")
+	survey := fs.Bool("survey", false, "development: do not stop at the first violation, list every distinct failing (label, site)")
 	replayPath := fs.String("replay", "", "re-run one stored replay file natively and exit")
 	fs.Parse(args)
 	if *replayPath != "" {
@@ -323,6 +342,12 @@ func cmdCheck(args []string) {
 				}
 				cfg.Deadline = time.Now().Add(time.Duration(budget) * time.Second)
 				cfg.Stop = &stopFlag
+				if h.OnlyLabels != "" {
+					cfg.OnlyLabel = regexp.MustCompile(h.OnlyLabels)
+				}
+				if *survey {
+					cfg.Stop = nil
+				}
 				for id := range knownIDs {
 					cfg.Known[id] = true
 				}
@@ -339,7 +364,7 @@ func cmdCheck(args []string) {
 					} else {
 						j.res = runHarness(prog, fn, cfg, j.prefix, *solver, "")
 					}
-					if j.res.Verdict == "VIOLATION" {
+					if j.res.Verdict == "VIOLATION" && !*survey {
 						stopFlag.Store(true)
 					}
 				}
@@ -358,6 +383,27 @@ func cmdCheck(args []string) {
 	close(ch)
 	wg.Wait()
 
+	if *survey {
+		seen := map[string]int{}
+		for _, j := range jobs {
+			for _, p := range j.res.Paths {
+				if p.Kind == "violation" || p.Kind == "known" || p.Kind == "inconclusive" {
+					seen[fmt.Sprintf("%s %v | %s | %s | %s", j.spec.ID, j.prefix, p.Kind, p.Label, p.Site)]++
+				}
+			}
+			for _, e := range j.res.Events {
+				seen[fmt.Sprintf("%s %v | event | %s | %s", j.spec.ID, j.prefix, e.Kind, e.Msg)]++
+			}
+		}
+		var keys []string
+		for k := range seen {
+			keys = append(keys, k)
+		}
+		sort.Strings(keys)
+		for _, k := range keys {
+			fmt.Printf("SURVEY %s (x%d)\n", k, seen[k])
+		}
+	}
 	// ---- aggregate ----
 	exit := 0
 	type hagg struct {
